@@ -147,6 +147,7 @@ class Session:
         self.changed = 0
         self.fcns = None
         self.toyn = 0
+        self.coord_switched = False
 
     def make(self, cfg, p):
         d = cfg.data.cal_angle({k: v for k, v in p.items()})
@@ -162,6 +163,8 @@ class Session:
             from sim.seams import ID_SEAM
 
             sfx = "|after-address-reuse" if ID_SEAM.reused else ""
+            if self.coord_switched:
+                sfx += "|after-coordinate-switch"
             self.log.fail(what, "%s|%s|%s%s" % (self.spec["strategy"], opk, what, sfx), "strategy %s, %s: %s differs from plain eager evaluation (max deviation / scale = %.3g)%s" % (self.spec["strategy"], opk, what, err, "; the address of a dead keyed object had been handed to a new one" if sfx else ""), step=self.step)
             raise Failure()
 
@@ -210,6 +213,10 @@ class Session:
                 else:
                     a.vm.xy2rp_all()
             self.changed += 1
+            if self.compared or self.fcns is not None:
+                # a trace / cached build may exist that read the polar flags: recorded finding (stale compiled
+                # state after a coordinate switch)
+                self.coord_switched = True
             self.compare_density(op["d"], "eval(after %s)" % ("rp2xy_all" if op["to"] == "xy" else "xy2rp_all"))
         elif k == "mask":
             names = self.free_couplings()
